@@ -3,7 +3,7 @@ CONSTANTS
   Configs <- ConfPers
   OpKinds <- AllKinds
   TLt <- NLt  TSucc <- NSucc  TAddTtl <- NAddTtl  TRemSecs <- NRemSecs
-  TZero = 0  TMaxV = 6
+  TZero = 0  TtlNone = 0  TMaxV = 6
   Overhead = 10  MaxValueLen = 100  MaxKeyLen = 50  RecovMaxV1 = 40  RecovMax = 30
 SPECIFICATION Spec
 CONSTRAINT Bounded
